@@ -156,6 +156,7 @@ type Frame struct {
 	callArgs     map[string]map[string]sval
 	loopIdxTerms []string // loop counters, offered as witnesses for existentials to be proved
 	ownObjs      []string // objects allocated by this symbolic execution (initonly.go)
+	bcastOwner   map[string]string // `broadcast` callback parameter -> owner of the Broadcast (ghost bcastCalls)
 	immCells     []immCell         // assigned-once local variable cells (top-level frame)
 	// calleeBindings: captured-variable cells of the closure whose contract is being applied
 	calleeBindings []string
@@ -411,6 +412,9 @@ func (f *Frame) callWrites(cc *ssa.CallCommon) *WriteSet {
 			return w
 		}
 		w.All = true
+		if _, ok := ghostHeaps["bcastCalls"]; ok {
+			w.Heaps["G_bcastCalls"] = true // the value may be a `broadcast` callback parameter
+		}
 		return w
 	}
 	w.add(f.eng.writesOf(f.ctx, callee))
